@@ -48,8 +48,7 @@ static void scenario(const struct vp_in *in, uint8_t kind, uint8_t aux)
         return;
 
     PersistentStorage s;
-    for (size_t i = 0; i < sizeof s; ++i)
-        ((unsigned char *)&s)[i] = in->stale[i];
+    c10_set_stale(in->stale);
     c10_instance(&s, &cfg);
 
     uint8_t dst[DSTSZ];
